@@ -37,6 +37,12 @@ func vmLine(opts string, fuel int, bc *ugo.Bytecode, globals ugo.Object, args []
 			cs = append(cs, encodeFn(v))
 		case ugo.Int, ugo.Uint, ugo.Float, ugo.Char, ugo.Bool, ugo.String, *ugo.UndefinedType:
 			cs = append(cs, codec.Encode(c, nil))
+		case ugo.Map, ugo.Array, ugo.Bytes:
+			// builtin-module constants (C12): shipped when they are plain data
+			if !dataOnly(c) {
+				return "", false
+			}
+			cs = append(cs, codec.Encode(c, nil))
 		default:
 			return "", false
 		}
@@ -53,8 +59,38 @@ func vmLine(opts string, fuel int, bc *ugo.Bytecode, globals ugo.Object, args []
 		strings.Join(cs, ";"), g, strings.Join(as, ";")), true
 }
 
+// dataOnly reports whether o is built from scalars, strings, bytes, arrays and maps only.
+func dataOnly(o ugo.Object) bool {
+	switch v := o.(type) {
+	case ugo.Int, ugo.Uint, ugo.Float, ugo.Char, ugo.Bool, ugo.String, ugo.Bytes, *ugo.UndefinedType:
+		return true
+	case ugo.Array:
+		for _, x := range v {
+			if !dataOnly(x) {
+				return false
+			}
+		}
+		return true
+	case ugo.Map:
+		for _, x := range v {
+			if !dataOnly(x) {
+				return false
+			}
+		}
+		return true
+	}
+	return false
+}
+
+// stepLimit bounds every traced run deterministically: a generated program that does not terminate
+// (or runs longer than the models' fuel) is reported as `out=timeout` and skipped by every stream,
+// instead of being cut off by a wall-clock watchdog at a timing-dependent point.
+const stepLimit = 400000
+
 type traceRec struct {
-	steps int
+	abort    func()
+	timedOut bool
+	steps    int
 	hash  uint64
 	full  []string
 	keep  bool
@@ -62,6 +98,10 @@ type traceRec struct {
 
 func (t *traceRec) hook(fi, ip, sp, nh int, op byte) {
 	t.steps++
+	if t.steps == stepLimit && t.abort != nil {
+		t.timedOut = true
+		t.abort()
+	}
 	st := func(h uint64, x int) uint64 { return (h*1000003 + uint64(x) + 1) % 2147483647 }
 	h := t.hash
 	h = st(h, fi)
@@ -115,6 +155,7 @@ func runTraced(vm *ugo.VM, bc *ugo.Bytecode, recoverOn bool, globals ugo.Object,
 		vm = ugo.NewVM(bc)
 	}
 	vm.SetRecover(recoverOn)
+	tr.abort = vm.Abort
 	done := make(chan struct{})
 	var ret ugo.Object
 	var err error
@@ -126,9 +167,13 @@ func runTraced(vm *ugo.VM, bc *ugo.Bytecode, recoverOn bool, globals ugo.Object,
 	}()
 	select {
 	case <-done:
-	case <-time.After(1 * time.Second):
+	case <-time.After(5 * time.Second):
+		tr.timedOut = true
 		vm.Abort()
 		<-done
+	}
+	if tr.timedOut {
+		return fmt.Sprintf("out=timeout\tsteps=%d\tth=0\tglobals=-", tr.steps), tr
 	}
 	g := vm.GetGlobals()
 	gs := "onil:0"
@@ -183,13 +228,16 @@ func init() {
 					continue
 				}
 				impl, tr := runTraced(nil, bc, rec, ugo.Map{}, args, false)
-				if strings.Contains(impl, "564d41626f727465644572726f72") {
-					// VMAbortedError: the 1 s watchdog fired (endless loop, or a stalled machine): not compared
-					c.Count("aborted-by-watchdog")
-					continue
-				}
 				cls := strings.SplitN(strings.TrimPrefix(impl, "out="), " ", 2)[0]
 				c.Count("outcome:" + cls)
+				if tr.timedOut {
+					c.Count("skipped:step-limit")
+					continue
+				}
+				if strings.Contains(impl, codec.Cyclic) {
+					c.Count("skipped:cyclic-value")
+					continue
+				}
 				key := ""
 				if tr.steps > 10 {
 					key = fmt.Sprintf("%s/%d", cls, tr.hash%997)
